@@ -645,6 +645,33 @@ func parseSpecExpr(text string) (*SpecExpr, error) {
 			return &SpecExpr{Kind: q, Binds: binds, R: body, Text: s}, nil
 		}
 	}
+	// a quantifier that starts before the first top-level implication owns the rest of the text
+	preSubs := map[string]*SpecExpr{}
+	{
+		qi := -1
+		for _, q := range []string{"forall ", "exists "} {
+			if i := indexTop(s, q); i > 0 && !isIdentChar(s[i-1]) && (qi < 0 || i < qi) {
+				qi = i
+			}
+		}
+		ii := indexTop(s, "==>") // also matches the tail of <==>
+		if qi > 0 && (ii < 0 || qi < ii) {
+			sub, err := parseSpecExpr(s[qi:])
+			if err != nil {
+				return nil, err
+			}
+			preSubs["sub__p0"] = sub
+			s = s[:qi] + "sub__p0"
+		}
+	}
+	if len(preSubs) > 0 {
+		inner, err := parseSpecExpr(s)
+		if err != nil {
+			return nil, err
+		}
+		attachSubs(inner, preSubs)
+		return inner, nil
+	}
 	if i := indexTop(s, "<==>"); i >= 0 {
 		l, err := parseSpecExpr(s[:i])
 		if err != nil {
@@ -669,6 +696,18 @@ func parseSpecExpr(text string) (*SpecExpr, error) {
 	}
 	// plain Go, but parenthesised groups may contain spec operators: replace by placeholders
 	subs := map[string]*SpecExpr{}
+	// a quantifier after a binary operator extends to the end of the expression
+	for _, q := range []string{"forall ", "exists "} {
+		if i := indexTop(s, q); i > 0 && !isIdentChar(s[i-1]) {
+			sub, err := parseSpecExpr(s[i:])
+			if err != nil {
+				return nil, err
+			}
+			name := fmt.Sprintf("sub__q%d", len(subs))
+			subs[name] = sub
+			s = s[:i] + name
+		}
+	}
 	var sb strings.Builder
 	for i := 0; i < len(s); i++ {
 		if s[i] == '"' {
@@ -733,6 +772,25 @@ func parseSpecExpr(text string) (*SpecExpr, error) {
 		return nil, fmt.Errorf("cannot parse %q: %v", s, err)
 	}
 	return &SpecExpr{Kind: "go", Go: e, Subs: subs, Text: s}, nil
+}
+
+func attachSubs(e *SpecExpr, subs map[string]*SpecExpr) {
+	if e == nil {
+		return
+	}
+	if e.Kind == "go" {
+		if e.Subs == nil {
+			e.Subs = map[string]*SpecExpr{}
+		}
+		for k, v := range subs {
+			if _, dup := e.Subs[k]; !dup {
+				e.Subs[k] = v
+			}
+		}
+		return
+	}
+	attachSubs(e.L, subs)
+	attachSubs(e.R, subs)
 }
 
 func isIdentChar(c byte) bool {
